@@ -7,9 +7,9 @@ From Exmex.Proofs Require Import Vars DeepSem DeepCompile DeepVars DeepSubs Deep
 Open Scope nat_scope.
 
 (* Vocabulary (Proofs/DeepSubs.v, Proofs/C11Main.v):
-   dindexed flagged V e — e is well formed (operand counts, flags) and every variable node (i, x) has i = position of x in V,
+   dindexed okop V e — e is well formed (operand counts, flags) and every variable node (i, x) has i = position of x in V,
                           V being e's variable list;
-   dclosed flagged S r  — r is well formed and mentions only names in S;
+   dclosed okop S r  — r is well formed and mentions only names in S;
    env_of V vals x      — the value of the name x under the assignment vals of the list V;
    senv C sub rho x     — rho x, unless sub x = Some r: then the named denotation of r under rho (NOT re-substituted);
    snames sub e         — the names substitution leaves: for every variable node x of e (nested), x itself if it is not
@@ -25,11 +25,12 @@ Theorem C11_substitution_is_simultaneous :
   (forall a, R a a) -> (forall a b, R a b -> R b a) -> (forall a b c, R a b -> R b c -> R a c) ->
   (forall k a a' b b', R a a' -> R b b' -> R (binf C k a b) (binf C k a' b')) ->
   (forall k a a', R a a' -> R (unf C k a) (unf C k a')) ->
-  forall (flagged : nat -> Prop),
-  (forall k, flagged k -> forall a b c, R (binf C k (binf C k a b) c) (binf C k a (binf C k b c))) ->
+  forall (okop : dbop -> Prop),
+  (forall o, okop o -> bcomm o = true ->
+     forall a b c, R (binf C (bidx o) (binf C (bidx o) a b) c) (binf C (bidx o) a (binf C (bidx o) b c))) ->
   forall (sub : str -> option (deepex D)),
-  (forall x r, sub x = Some r -> dclosed flagged (dvars r) r) ->
-  forall e : deepex D, dindexed flagged (dvars e) e ->
+  (forall x r, sub x = Some r -> dclosed okop (dvars r) r) ->
+  forall e : deepex D, dindexed okop (dvars e) e ->
   exists e', subs C sub e = Ok e' /\ dvars e' = sort_strs (snames sub e) /\
     forall vals', length vals' = length (dvars e') ->
     exists v w, eval_deep C e' vals' = Ok v /\
@@ -42,10 +43,11 @@ Theorem C11_replacement_evaluated_on_its_own_variables :
   (forall a, R a a) -> (forall a b, R a b -> R b a) -> (forall a b c, R a b -> R b c -> R a c) ->
   (forall k a a' b b', R a a' -> R b b' -> R (binf C k a b) (binf C k a' b')) ->
   (forall k a a', R a a' -> R (unf C k a) (unf C k a')) ->
-  forall (flagged : nat -> Prop),
-  (forall k, flagged k -> forall a b c, R (binf C k (binf C k a b) c) (binf C k a (binf C k b c))) ->
+  forall (okop : dbop -> Prop),
+  (forall o, okop o -> bcomm o = true ->
+     forall a b c, R (binf C (bidx o) (binf C (bidx o) a b) c) (binf C (bidx o) a (binf C (bidx o) b c))) ->
   forall (sub : str -> option (deepex D)) (x : str) (r : deepex D) (all : list str) (vals' : list D),
-  sub x = Some r -> dindexed flagged (dvars r) r -> incl (dvars r) all ->
+  sub x = Some r -> dindexed okop (dvars r) r -> incl (dvars r) all ->
   exists w, eval_deep C r (map (env_of C all vals') (dvars r)) = Ok w /\ R w (senv C sub (env_of C all vals') x).
 Proof. exact @replacement_value. Qed.
 
@@ -57,11 +59,12 @@ Theorem C11_named_denotation :
   (forall a, R a a) -> (forall a b, R a b -> R b a) -> (forall a b c, R a b -> R b c -> R a c) ->
   (forall k a a' b b', R a a' -> R b b' -> R (binf C k a b) (binf C k a' b')) ->
   (forall k a a', R a a' -> R (unf C k a) (unf C k a')) ->
-  forall (flagged : nat -> Prop),
-  (forall k, flagged k -> forall a b c, R (binf C k (binf C k a b) c) (binf C k a (binf C k b c))) ->
+  forall (okop : dbop -> Prop),
+  (forall o, okop o -> bcomm o = true ->
+     forall a b c, R (binf C (bidx o) (binf C (bidx o) a b) c) (binf C (bidx o) a (binf C (bidx o) b c))) ->
   forall (sub : str -> option (deepex D)),
-  (forall x r, sub x = Some r -> dclosed flagged (dvars r) r) ->
-  forall e : deepex D, dstruct flagged e ->
+  (forall x r, sub x = Some r -> dclosed okop (dvars r) r) ->
+  forall e : deepex D, dstruct okop e ->
   exists e', subs C sub e = Ok e' /\ dvars e' = sort_strs (snames sub e) /\
     forall vals', length vals' = length (dvars e') ->
     exists v, eval_deep C e' vals' = Ok v /\ R v (dden C (nlook (senv C sub (env_of C (dvars e') vals'))) e).
@@ -70,6 +73,7 @@ Proof. exact @subs_eval. Qed.
 (* 4. the expressions the deep parser builds from well-formed trees are index-consistent, so 1 applies to them *)
 Theorem C11_parsed_expressions_qualify :
   forall (D : Type) (C : carrier D) (tb : optable) (R : D -> D -> Prop),
+  wf_table tb = true ->
   (forall a, R a a) -> (forall a b, R a b -> R b a) -> (forall a b c, R a b -> R b c -> R a c) ->
   (forall k a a' b b', R a a' -> R b b' -> R (binf C k a b) (binf C k a' b')) ->
   (forall k a a', R a a' -> R (unf C k a) (unf C k a')) ->
@@ -79,9 +83,9 @@ Theorem C11_parsed_expressions_qualify :
     dparse C tb (S (length (flatten c))) None (flatten c) (find_parsed_vars (flatten c)) [] [] [] = Ok (e, []) /\
     dindexed (DeepParse.flagged tb) (dvars e) e.
 Proof.
-  intros D C tb R Hr Hs Ht Hb Hu Ha c Hwf.
+  intros D C tb R Hwt Hr Hs Ht Hb Hu Ha c Hwf.
   set (vars := find_parsed_vars (flatten c)).
-  destruct (deep_parse_is_reference_wf C tb R Hr Hs Ht Hb Hu Ha c (map (fun _ => dflt C) vars) Hwf ltac:(apply map_length))
+  destruct (deep_parse_is_reference_wf C tb Hwt R Hr Hs Ht Hb Hu Ha c (map (fun _ => dflt C) vars) Hwf ltac:(apply map_length))
     as (e & v & H1 & H2 & _ & _ & H5).
   exists e. split; [exact H1|]. fold vars in H2, H5. rewrite H2. split; [|exact H2].
   revert H5. apply dwf_weaken; [intros i x H; exact H|]. intros w [Hl _]. unfold short_list. rewrite map_length in Hl. exact Hl.
